@@ -50,8 +50,13 @@ func (c cutExpr) expr() expr.Expr {
 
 	ex := c.ex
 	if c.begin > 0 {
+		// The shift is calculated in width c.end (all bytes of the stored
+		// value up to the last byte taken) rather than in width of ex. The
+		// stored expression can be narrower than the stored value (it's
+		// zero extended then) and the shift amount wouldn't fit a narrow
+		// operation width.
 		shift := expr.ConstFromUint(uint16(c.begin) * 8)
-		ex = expr.NewBinary(expr.Rsh, ex, shift, ex.Width())
+		ex = expr.NewBinary(expr.Rsh, ex, shift, c.end)
 	}
 
 	return exprtransform.SetWidth(ex, c.end-c.begin)
